@@ -69,7 +69,7 @@ fn main() {
         "C02" => vec![("c02", c02::run), ("gen", gen::run), ("model", model::run_differential)],
         "C03" => vec![("c03", c03::run), ("model", model::run_differential)],
         "C08" => vec![("c08", c08::run), ("c15-names", c15::inspection_named_like_a_step), ("c03", c03::run)],
-        "C09" => vec![("c09", c09::run_c09), ("c09-collisions", c09::collisions), ("ecdsa-lengths", c01::ecdsa_signature_lengths), ("gen", gen::run)],
+        "C09" => vec![("c09", c09::run_c09), ("c09-collisions", c09::collisions), ("ecdsa-lengths", c01::ecdsa_signature_lengths), ("declared-scheme", c01::declared_scheme_decides), ("gen", gen::run)],
         "C05" => vec![("c05", c10::run_c05), ("c10", c10::run_c10), ("c09", c09::run_c09), ("gen", gen::run)],
         "C11" => vec![("c11", c09::run_c11), ("c12", c12::run), ("gen", gen::run)],
         "C10" => vec![("c10", c10::run_c10)],
